@@ -72,6 +72,8 @@ class KGen:
         if self.inplace and r.random() < self.inplace:
             out = ins[0]  # in place: the same buffer on the input and on the output side
         st = {"k": "gen", "ins": ins, "out": out, "tag": self.tag}
+        if getattr(self, "castin", 0) and ins[0].startswith("%a") and r.random() < self.castin:
+            st["castin"] = True
         if self.accum and r.random() < self.accum and (out.startswith("%a") or out in self.written):
             st["acc"] = True  # out = f(ins, out): the output is read as well
         if depth == 0:
@@ -121,6 +123,10 @@ def kernels_emit(ast):
                     f'ins(%vs{t_} : {TV.format(o=s["soff"])}) outs(%vd{t_} : {TV.format(o=s["doff"])}) {{\n^bb0(%x0 : i32, %x1 : i32):\n  linalg.yield %x0 : i32\n}}',
                 )
             else:
+                if s.get("castin") and not dyn and s["ins"][0].startswith("%a") and s["ins"][0] not in strided:
+                    # the operand reaches the kernel through a memref.cast: a view op that does not say where its result lives
+                    e(ind, f'%ci{s["tag"]} = "memref.cast"({s["ins"][0]}) : ({T}) -> {T}')
+                    s = dict(s, ins=[f'%ci{s["tag"]}'] + s["ins"][1:])
                 n = len(s["ins"])
                 maps = ", ".join([amap] * (n + 1))
                 args = ", ".join(f"%x{j} : i32" for j in range(n + 1))
@@ -176,6 +182,12 @@ def first_use_is_read(ast, what="discipline", lc_args=()):
                     use(s["out"], path, ("rw" if s.get("acc") else "w") if int(s["out"][2:]) in lc_args else "w")
 
     walk(ast["body"], ())
+    # an argument that also reaches a kernel through a memref.cast has two cast values (two stand-ins) for the same memory: each
+    # is filled and written back as the statement says, but they do not see each other's data unless the argument is only read
+    via_cast = {st["ins"][0] for st in _all_stmts(ast["body"]) if st.get("castin")}
+    written_args = {st["out"] for st in _all_stmts(ast["body"]) if st["k"] == "gen"}
+    if what == "discipline" and via_cast & written_args:
+        return False
     if what == "accumulating-first":
         return any(c["kinds"][0] == "rw" for cs in casts.values() for c in cs)
     return all(c["kinds"][0] in ("r", "rw") or not ({"r", "rw"} & set(c["kinds"])) for cs in casts.values() for c in cs)
@@ -455,6 +467,17 @@ def const_program(case):
             f'  %1 = "snax.layout_cast"(%0) : (memref<{sh}x{el}, "L1">) -> memref<{sh}x{el}, {tsl}, "L1">\n'
             f'  "test.op"(%1) : (memref<{sh}x{el}, {tsl}, "L1">) -> ()\n}}'
         )
+    elif case["kind"] in ("const-two-layouts", "const-chain"):
+        # one constant, two *different* target layouts: two casts of it (the same weights feeding two accelerator operations
+        # that ask for different tilings), or a chain of two casts
+        tsl2 = tsl_text(tb, case["steps2"], 0)
+        l1 = f'memref<{sh}x{el}, "L1">'
+        l1t, l1u = f'memref<{sh}x{el}, {tsl}, "L1">', f'memref<{sh}x{el}, {tsl2}, "L1">'
+        head = f'builtin.module {{\n  %0 = arith.constant dense<{nested(vals, shape)}> : {l1}\n  %1 = "snax.layout_cast"(%0) : ({l1}) -> {l1t}\n'
+        if case["kind"] == "const-two-layouts":
+            src = head + f'  "test.op"(%1) : ({l1t}) -> ()\n  %3 = "snax.layout_cast"(%0) : ({l1}) -> {l1u}\n  "test.op"(%3) : ({l1u}) -> ()\n}}'
+        else:
+            src = head + f'  %3 = "snax.layout_cast"(%1) : ({l1t}) -> {l1u}\n  "test.op"(%3) : ({l1u}) -> ()\n}}'
     elif case["kind"] == "global":
         src = f'builtin.module {{\n{glob}  %0 = memref.get_global @g : {l3}\n  %1 = "snax.layout_cast"(%0) : ({l3}) -> {l3t}\n  "test.op"(%1) : ({l3t}) -> ()\n}}'
     elif case["kind"] == "global-two-gets":
@@ -622,7 +645,7 @@ def run_const(case, out):
     except Violation as v:
         out.update(status="violation", oracle=v.oracle, message=v.message)
         return out
-    transformed = "snax.layout_cast" not in t and "_transformed" in t or (case["kind"] == "const" and "memref.copy" not in t and "snax.layout_cast" not in t)
+    transformed = "snax.layout_cast" not in t and "_transformed" in t or (case["kind"].startswith("const") and "memref.copy" not in t and "snax.layout_cast" not in t)
     out["probes"]["constant-transformed" if transformed else "constant-not-transformed"] = 1
     out["nontrivial"] = bool(transformed)
     out["digest"] = digest_of(len(consumers), transformed)
@@ -639,12 +662,14 @@ def gen_case(rng, tier):
         depth = [rng.choice([1, 2, 2, 3]) for _ in range(rank)]
         tb = [[rng.choice([1, 2, 2, 3, 4]) for _ in range(depth[d])] for d in range(rank)]
         return {"fam": "const", "tb": tb, "steps": gen_steps(rng, tb, pad=False), "steps2": gen_steps(rng, tb, pad=False), "el": rng.choice(["i8", "i32"]),
-                "kind": rng.choice(["const", "const", "global", "global", "global-two-gets", "global-two-casts", "global-two-funcs", "global-two-layouts", "global-chain", "global-msc-two-layouts"]), "mul": rng.choice([1, 3, 7])}
+                "kind": rng.choice(["const", "const", "const-two-layouts", "const-chain", "global", "global", "global-two-gets", "global-two-casts", "global-two-funcs", "global-two-layouts", "global-chain", "global-msc-two-layouts"]), "mul": rng.choice([1, 3, 7])}
     accum = rng.choice([0, 0, 0, 0.3])
     uninit = rng.choice([0, 0, 0, 0.4])
     dyn = rng.random() < 0.15
     views = 0 if dyn else rng.choice([0, 0, 0.3, 0.5])  # kernels on subviews (halves) of completely filled local buffers
-    ast = KGen(rng, accum, inplace=rng.choice([0, 0, 0.2]), uninit=uninit, views=views).program()
+    kg = KGen(rng, accum, inplace=rng.choice([0, 0, 0.2]), uninit=uninit, views=views)
+    kg.castin = rng.choice([0, 0, 0, 0.4])  # arguments that reach a kernel through a memref.cast
+    ast = kg.program()
     if uninit:
         ast["uninit_reads"] = True
     if not dyn and rng.random() < 0.2:
@@ -682,6 +707,8 @@ def _shrink_body(body):
                 yield body[:i] + [dict(s, body=nb)] + body[i + 1 :]
         if s["k"] == "gen" and len(s["ins"]) > 1:
             yield body[:i] + [dict(s, ins=s["ins"][:1])] + body[i + 1 :]
+        if s["k"] == "gen" and s.get("castin"):
+            yield body[:i] + [{kk: vv for kk, vv in s.items() if kk != "castin"}] + body[i + 1 :]
 
 
 def _kf_c12_1(case, outcome):
